@@ -61,7 +61,9 @@ def _plain(draw, kind):
     n = draw(st.integers(2 if alphabet != "PROTEIN" else 1, 60))
     letters = [draw(st.sampled_from(sorted(table))) for _ in range(n)]
     lines = _break(draw, letters)
-    spec = {"kind": kind, "alphabet": alphabet, "letters": letters, "lines": lines}
+    # the file may end without a line break after its last line
+    spec = {"kind": kind, "alphabet": alphabet, "letters": letters, "lines": lines,
+            "eof_newline": draw(st.sampled_from([True, True, False]))}
     if kind == "ig":
         spec["circular"] = draw(st.booleans()) and n >= 3
         spec["comments"] = draw(st.integers(1, 3))
@@ -252,6 +254,9 @@ def check(spec, ctx):
             if spec["second"]:
                 text += "; DNA\nsecond\nACGT1\n"
             path = ctx.dir / "seq.ig"
+        if not spec.get("eof_newline", True):
+            text = text.rstrip("\n")
+            ctx.label("no_newline_at_end_of_file")
         path.write_text(text)
         try:
             meta = MetaMolecule.from_sequence_file(ff, path, "mol")
